@@ -693,6 +693,30 @@ def _oracle_polyline_once(p, V, closed, d, dv, kw, VE):
         rounding_violations(V, r.v, dv, "polyline.rounded" if d is not None else "polyline.default-decimals", out)
     if not np.array_equal(p.v, V):
         out.append(("polyline.rounded/pure", "rounded()/serialize() modified the polyline"))
+    # polylines *made from* the rounded one by the methods that create new vertices (midpoints, subdivision points,
+    # crossings with a plane) are Polylines like any other: rounding them rounds their own vertices
+    if len(V) >= 2 and np.all(np.isfinite(V)) and not out:
+        from polliwog import Plane
+        derived = []
+        for make_one in (lambda: r.with_segments_bisected(list(range(r.num_e))),
+                         lambda: r.subdivided_by_length(max(float(r.total_length) / (2 * len(V) + 1), 1e-9)),
+                         lambda: r.sliced_by_plane(Plane.from_point_and_normal(np.mean(np.asarray(r.v), axis=0) + 0.123456789, np.array([0.36, 0.48, 0.8]))),
+                         lambda: r.sliced_by_plane(Plane.from_point_and_normal(np.mean(np.asarray(r.v), axis=0) - 0.0123456789, np.array([-0.6, 0.8, 0.0])))):
+            try:
+                derived.append(make_one())
+            except Exception:      # not every polyline can be cut / subdivided; those methods are C06's / C08's subject
+                pass
+        for q3 in derived:
+            qv3 = np.array(q3.v, dtype=np.float64)
+            if qv3.size == 0 or not np.all(np.isfinite(qv3)):
+                continue
+            for d3 in sorted({dv, dv + 1}):
+                try:
+                    r3 = q3.rounded(decimals=d3)
+                except Exception as e:
+                    out.append(("polyline.third-generation/total", "rounded(%d) of a polyline derived from a rounded one raised %s(%s)" % (d3, type(e).__name__, e)))
+                    continue
+                rounding_violations(qv3, r3.v, d3, "polyline.third-generation", out)
     if not plain_json(s):
         out.append(("polyline.serialize/plain-json", "serialize() returned non-JSON data: %r" % (s,)))
         return dedupe(out), None
